@@ -88,13 +88,14 @@ def mc_configs(tier):
         return quick
     return quick + [
         ("wide: as quick with callbacks of 1 or 3 frames and <=5 calls", dict(fs=(1, 3), maxops=5)),
-        ("reuse: 1 slot, 4 modulators, 2 mixer parameters, 3 mappings, buffer 4, callbacks of 4 or 6 frames, <=4 callbacks, <=6 calls",
-         dict(mods=4, ns=1, b=4, fs=(4, 6), maxcb=4, maxops=6, gap=2, kinds=("probe", "tw"), probesrc=False, maps="MapsC",
+        ("reuse: 1 slot, 5 modulators (probe / tweener), 2 mixer parameters, 3 mappings, buffer 4, callbacks of 4 or 6 frames, "
+         "<=5 callbacks, <=8 calls (<=2 between callbacks)",
+         dict(mods=5, ns=1, b=4, fs=(4, 6), maxcb=5, maxops=8, gap=2, kinds=("probe", "tw"), probesrc=False, maps="MapsC",
               owners=("mix",), roles=())),
-        ("lfo: 2 slots, tweener + LFOs (saw, triangle, pulse; frequency, amplitude or offset linked), 3 sets, buffer 2, "
-         "callbacks of 2 or 3 frames, <=3 callbacks, <=4 calls",
-         dict(params=1, fs=(2, 3), kinds=("tw", "lfo"), probesrc=False, twsets="SetsC", waves=("saw", "tri", "pulse"),
-              ph0s=(0, 1024), freqs=(0, 4), roles=("fr", "am", "of"), maps="MapsA", owners=("mix",))),
+        ("lfo: 2 slots, tweener + LFOs (saw, triangle, pulse; starting phase 0 or 1/4; frequency, amplitude or offset linked), "
+         "3 sets (incl. delayed InPowi(2)), 1 mixer parameter, buffer 2, callbacks of 3 frames, <=3 callbacks, <=4 calls",
+         dict(params=1, fs=(3,), kinds=("tw", "lfo"), probesrc=False, twsets="SetsC", waves=("saw", "tri", "pulse"),
+              ph0s=(0, 1024), freqs=(4,), roles=("fr", "am", "of"), maps="MapsA", owners=("mix",))),
     ]
 
 
